@@ -2,7 +2,8 @@
 
 Decided: kind from dimension names (F-KIND); non-face branches raise; einsum contracts exactly the last
 data axis with the 1-D areas; areas come from compute_face_areas(<the call's own rule, order>);
-the result keeps name and grid and drops exactly the last dimension."""
+the result keeps name and grid and drops exactly the last dimension;
+no triangle area (length of the cross product of two edge vectors) is compared with the length tolerance in uxarray/grid (F-DIM/area-vs-tolerance, contradiction rule)."""
 
 import ast
 
@@ -33,6 +34,8 @@ def check(run):
     _memo_paths(run, P, P.func("uxarray/grid/grid.py:Grid.compute_face_areas"))
     params = [p for p in f.params() if p != "self"]
     _options_forwarded(run, P)
+    from ..rules import sqtol as _sq
+    _sq.check_area(run, P, ("uxarray/grid/",))
     _options_not_rewritten(run, P)
     _data_not_modified(run, P)
     # (b) einsum
